@@ -73,11 +73,29 @@ Fixpoint es_members (target : string) (ms : list (string * jv)) : option eskind 
       match v with JObj ams => Some (EsSet (es_action_labels target ams)) | _ => None end
     else es_members target r
   end.
+(* one line read as an action line: (its text, the tree jx walks over; None = an empty line) *)
 Definition es_line (target : string) (tl : string * option jv) : option esline :=
   match snd tl with
   | None => Some (EL (fst tl) EsBlank)                       (* if len(line) == 0 { return nil } *)
   | Some (JObj ms) => option_map (EL (fst tl)) (es_members target ms)
   | Some _ => None
+  end.
+(* the body, line by line: the first non-empty line behind an index / create action is that action's document WHATEVER KEYS
+   IT HAS (e.source, since the fix of defect elastic-document-with-action-key: its members are skipped; it must still be a
+   JSON object); every other line is read as an action line by its keys *)
+Fixpoint es_walk (target : string) (source : bool) (ls : list (string * option jv)) : option (list esline) :=
+  match ls with
+  | [] => Some []
+  | tl :: r =>
+    match snd tl with
+    | None => option_map (cons (EL (fst tl) EsBlank)) (es_walk target source r)
+    | Some v =>
+      if source then match v with JObj _ => option_map (cons (EL (fst tl) EsDoc)) (es_walk target false r) | _ => None end
+      else match es_line target tl with
+           | Some l => option_map (cons l) (es_walk target (match el_kind l with EsSet _ => true | _ => false end) r)
+           | None => None
+           end
+    end
   end.
 
 (* ---------------------------------------------------------------- generated case files *)
@@ -87,7 +105,7 @@ Record wcase := WCase { wc_case : case; wc_ctx : string; wc_lines : list (string
 Definition wc_body (c : wcase) : option body :=
   match c_body (wc_case c) with
   | BCf src ck _ => option_map (BCf src ck) (all_some cf_line (wc_lines c))
-  | BEs ck _ => option_map (BEs ck) (all_some (es_line (wc_ctx c)) (wc_lines c))
+  | BEs ck _ => option_map (BEs ck) (es_walk (wc_ctx c) false (wc_lines c))
   | b => Some b
   end.
 Definition with_any_body (c : case) (b : body) : case :=
